@@ -403,7 +403,20 @@ class Topology(ABC):
         :param name:
         :return:
         """
-        self.graph_model.remove_ns_with_cps_and_links(node_id=self._get_ns_by_name(name=name).node_id)
+        ns = self._get_ns_by_name(name=name)
+        self._remove_peering_ports(ns)
+        self.graph_model.remove_ns_with_cps_and_links(node_id=ns.node_id)
+
+    def _remove_peering_ports(self, ns: NetworkService):
+        """
+        For a service that is peered with other services (NetworkService.peer) remove the
+        service ports of those other services facing this one (together with the links)
+        """
+        for sp in ns.interface_list:
+            if sp.type != InterfaceType.ServicePort:
+                continue
+            for p in sp.get_peers(itype=InterfaceType.ServicePort) or []:
+                self.graph_model.remove_cp_and_links(node_id=p.node_id)
 
     def _get_node_by_name(self, name: str) -> Node:
         """
@@ -1016,6 +1029,7 @@ class ExperimentTopology(Topology):
         ns = self._get_ns_by_id(ns.node_id)
         for i in ns.interface_list:
             self._disconnect_interface(i)
+        self._remove_peering_ports(ns)
         self.graph_model.remove_ns_with_cps_and_links(node_id=ns.node_id)
 
     def _prune_components(self, c: Component, parent: Node):
@@ -1031,6 +1045,10 @@ class ExperimentTopology(Topology):
         Prune this interface
         """
         self._disconnect_interface(i)
+        if i.type == InterfaceType.ServicePort:
+            # a port peering this service with another one: the other service's port goes as well
+            for p in i.get_peers(itype=InterfaceType.ServicePort) or []:
+                self.graph_model.remove_cp_and_links(node_id=p.node_id)
         self.graph_model.remove_cp_and_links(node_id=i.node_id)
 
     def prune(self, reservation_state):
